@@ -6,16 +6,15 @@ from . import inviteeng as I
 
 PROP = "C16"
 MODULE = "MdkVerif.Props.C16"
-EXPECTED_FINDINGS = {
-    "welcome-replay-pending": "the same welcome under a new wrapper id resets an Active group's record to Pending at the invitation's epoch (Props.C16.C16_witness_replay_pending)",
-    "welcome-replay-accept-overwrites": "accepting the replayed welcome replaces the MLS state by the invitation's; the member can no longer decrypt (C16_witness_replay_accept)",
-    "welcome-replay-decline-deactivates": "declining the replayed welcome sets the Active group Inactive (C16_witness_replay_decline)",
-    "welcome-row-before-reject": "a rumor without id is refused with MissingRumorEventId after the Pending group row and relays were written (refused_welcome_effect)",
-    "accept-record-of-other-invitation": "accept_welcome keeps the record written by ANOTHER invitation to the same group id (accept_record_full_false)",
-    "welcome-foreign-creator-overwrites-record": "a welcome for a held MLS group id made by a non-member (new group with the same id) overwrites the Active group's record on process_welcome — name, nostr group id, Pending — and the real group's events are no longer routed (C16_witness_foreign_creator)",
-    "welcome-foreign-creator-replaces-mls": "… accepting it replaces the MLS state by the foreign group's",
-    "welcome-foreign-creator-deactivates": "… declining it sets the group Inactive",
+FIXED_SIGNATURES = {
+    "welcome-replay-pending": "0dcc511", "welcome-replay-accept-overwrites": "0dcc511", "welcome-replay-decline-deactivates": "0dcc511",
+    "welcome-row-before-reject": "4010ddc",
 }
+OPEN_SIGNATURES = ["welcome-foreign-creator-overwrites-record", "welcome-foreign-creator-replaces-mls", "welcome-foreign-creator-deactivates",
+                   "welcome-other-invitation-overwrites-record", "welcome-other-invitation-replaces-mls", "welcome-other-invitation-deactivates",
+                   "accept-record-of-other-invitation"]
+EXPECTED_FINDINGS = {"fixed (regression traces in corpus/C16, a reappearance is a VIOLATION)": FIXED_SIGNATURES,
+                     "open (known_findings.jsonl; a DIFFERENT rumor for a held group id)": OPEN_SIGNATURES}
 
 def run(tier, seed, t0, H):
     n = 150 if tier == "quick" else 1500
@@ -55,7 +54,7 @@ def run(tier, seed, t0, H):
                     "views_compared": cstats.get("views_compared", 0),
                     "op_histogram": H.hist(ops), "result_histogram": H.hist(results), "oracle_stats": stats,
                     "correspondence_disagreements": len(corr), "oracle_failures": len(ofails), "oracle_failure_signatures": sigs,
-                    "expected_findings_on_unrepaired_tree": EXPECTED_FINDINGS,
+                    "finding_signatures": EXPECTED_FINDINGS,
                     "samples": [{"ops": c["ops"], "impl": [x[:240] for x in c["impl"]]} for c in cases if c["id"].startswith("gen-")][-1:],
                     "generated_facts": {k: v for k, v in (facts or {}).items() if k.startswith("welcome")}}
     else:
@@ -63,7 +62,7 @@ def run(tier, seed, t0, H):
     coverage["axioms_used"] = H.axiom_summary(axioms)
     checker = f"cd lean && lake build {MODULE} mdkdrv && lake env lean .lake/audit/C16_axioms.lean (#print axioms); ./check C16 --tier {tier}"
     return C.finish(PROP, tier, seed, t0, ob, failures, coverage,
-                    ["PARTIAL: `no_disturb` (full strength) is FALSE of the code and kept as a def with three witnesses; what is proved is no_disturb_partial / no_disturb_when_not_held",
+                    ["PARTIAL: `no_disturb` (full strength) is still FALSE of the code (a different rumor for a held group id: foreign creator, another genuine invitation) and kept as a def with closed witnesses; proved: no_disturb_partial and no_disturb_when_harmless (every replay of a stored rumor, every re-accept / late decline of an Accepted welcome, every invitation to a group not held Active), same_rumor_idempotent, accepted_welcome_final, refused_process_no_effect",
                      "OpenMLS is abstract: an invitation is the (group id, post-commit token, epoch, member count, group data) its preview yields; `into_group` with replace_old_group overwrites the MLS group of that id; a welcome stays decodable after it was accepted (observed: key packages are not consumed) — all exercised by the correspondence run, not proved",
                      "group traffic is modelled only as far as the property needs it (a commit applies iff the member is in its parent state; a message decrypts iff the member is in the sender's state); other outcomes of process_message are compared as 'did not apply'",
                      "rumors whose group data collides with ANOTHER held group's nostr id (refused by save_group's uniqueness check in the model) and gift-wrap (kind 1059) handling are not generated by the harness; welcomes for a held MLS group id by a different creator ARE (forge, via MlsGroup::new_with_group_id)",
